@@ -42,6 +42,11 @@ Section Spec.
      __repr__ is not itself a decorated callable (that would print), does not raise, does not touch the world *)
   Definition repr_harmless (cx : ctx Sigma) : Prop := forall v s, exists r, cx_repr cx v s = (ROk r, s).
 
+  (* the name of a callable can be shown: it has __name__ / __qualname__, or - that is what the wrappers fall back to -
+     its repr is harmless (repr of a functools.partial or of a callable object shows the receiver / the arguments) *)
+  Definition name_readable (cx : ctx Sigma) (c : callee) : Prop :=
+    c_named (cx_callee cx c) = true \/ (forall s, exists r, cx_repr cx (VCallable c) s = (ROk r, s)).
+
   (* how the callable is used: whoever holds something that reports itself as a coroutine function
      awaits what it returns (the twin of an `async def` is awaited) *)
   Definition awaited_if_coro (f : cdesc Sigma) : bool := implb (c_iscoro f) (c_mode f).
@@ -114,6 +119,7 @@ Arguments same_as {Sigma} _ _.
 Arguments same_as_on {Sigma} _ _ _.
 Arguments behaves_as {Sigma} _ _.
 Arguments repr_harmless {Sigma} _.
+Arguments name_readable {Sigma} _ _.
 Arguments awaited_if_coro {Sigma} _.
 Arguments plain_function {Sigma} _.
 Arguments sync_function {Sigma} _.
